@@ -6,10 +6,26 @@ libraries' data model (listed in the evidence); class hierarchies themselves are
 import mypy.nodes as mp_nodes  # noqa: F401
 import mypy.types as mp_types  # noqa: F401
 from mypy.nodes import ArgKind  # noqa: F401
+from safeds_stubgen.api_analyzer._api import API  # noqa: F401
+from safeds_stubgen.stubs_generator._helper import NamingConvention  # noqa: F401
 
 SCHEMA = {
     "mypy.nodes.Argument": {"variable": "mp_nodes.Var", "kind": "ArgKind", "pos_only": "bool",
                             "initializer": "mp_nodes.Expression | None", "type_annotation": "mp_types.Type | None"},
     "mypy.nodes.Var": {"is_self": "bool", "is_cls": "bool", "name": "str", "fullname": "str",
                        "type": "mp_types.Type | None", "explicit_self_type": "bool", "is_inferred": "bool"},
+}
+
+# un-annotated instance attributes of repo classes (shape = what the constructor stores)
+SCHEMA.update({
+    "safeds_stubgen.stubs_generator._stub_string_generator.StubsStringGenerator": {
+        "api": "API", "naming_convention": "NamingConvention", "reexport_module_id": "str"},
+})
+
+# named record shapes (dictionaries with constant keys): the output format of AbstractType.to_dict
+RECORDS = {
+    "TypeDict": {"kind": "str", "name": "str", "qname": "str", "types": "list[TypeDict]", "type": "TypeDict",
+                 "parameter_types": "list[TypeDict]", "return_type": "TypeDict", "key_type": "TypeDict",
+                 "value_type": "TypeDict", "literals": "list", "upper_bound": "TypeDict | None",
+                 "base_type": "str", "min_inclusive": "bool", "max_inclusive": "bool"},
 }
